@@ -139,7 +139,7 @@ class Sess:
         fl = sorted('%s:%s' % (f, r['kind']) for f, r in self.m.items() if r['kind'] != 'none')
         if 'forged-for-identity-key' in self.notes:
             fl = ['identity-public-key-forgery']       # whatever else was altered, the key is the identity
-        fl += sorted(n for n in self.notes if n.startswith('coordinated-'))
+        fl += sorted(n for n in self.notes if n.startswith('coordinated-') or n == 'forged-extension')
         if 'forged-for-order-two-key' in self.notes:
             fl = ['order-two-off-curve-key-forgery']
         if 'forged-with-identity-ephemeral' in self.notes:
